@@ -110,6 +110,13 @@ def run(ctx):
                 embedded = text
             # offsets are relative to the text embedded in the MIR (universal newlines: \r\n read as \n)
             eol = 1
+            # a reference delimits the user's line: never a line terminator (a CR kept from a CRLF file, a newline)
+            for lb, cs, r in items:
+                if r[0] == fname:
+                    sl = embedded[r[2]:r[2] + r[3]]
+                    if "\r" in sl or "\n" in sl:
+                        problems.append(f"{lb}: the referenced text {sl!r} contains a line terminator")
+                        break
             glines = glist([gstr(l) for l in embedded.split("\n")])      # Python's lines: only \n (after universal-newline reading) ends a line
             gitems = glist([f"{{| ri_label := {gstr(lb)}; ri_candidates := {glist([gz(c) for c in cs])}; ri_file := {gstr(r[0])}; "
                             f"ri_line := {gz(r[1])}; ri_off := {gz(r[2])}; ri_len := {gz(r[3])} |}}" for lb, cs, r in items])
